@@ -292,7 +292,7 @@ pub fn run(ctx: &Ctx) -> Outcome {
         }
     }
     if want("random") {
-        let (lo, hi) = range(ctx.tier.pick(1500, 100_000));
+        let (lo, hi) = range(ctx.tier.pick(10_000, 100_000));
         run_cases(&mut acc, "random", hi - lo, |i| {
             let mut out = CaseOut::new();
             random_case(i + lo, seed, &mut out);
